@@ -92,8 +92,8 @@ type monitors struct {
 	reads      map[pb.SystemCtx]*readRec
 	evt        uint64                             // monitor event counter (finer than sim steps)
 	regEvt     map[uint64]map[pb.SystemCtx]uint64 // per replica: when it (last) received a read context
-	hbEvt      map[[2]uint64]evtTerm              // (follower, leader): latest Heartbeat handled
-	respEvt    map[[2]uint64]evtTerm              // (leader, follower): latest HeartbeatResp handled
+	hbEvt      map[[3]uint64]evtTerm              // (follower, leader, term): latest Heartbeat of that term handled
+	respEvt    map[[3]uint64]evtTerm              // (leader, follower, term): latest HeartbeatResp of that term handled
 	votingHist map[uint64][]votingAt
 	// remoteAnswered: read contexts for which the replica handled a ReadIndexResp
 	remoteAnswered map[uint64]map[pb.SystemCtx]bool
@@ -135,7 +135,7 @@ func newMonitors(s *Sim, sink Sink) *monitors {
 		stateBy: map[uint64]uint64{}, memberAt: map[uint64]uint64{},
 		leaderOf: map[uint64]uint64{}, votes: map[[2]uint64]uint64{}, voteResp: map[[2]uint64]map[uint64]bool{},
 		reads: map[pb.SystemCtx]*readRec{}, regEvt: map[uint64]map[pb.SystemCtx]uint64{},
-		hbEvt: map[[2]uint64]evtTerm{}, respEvt: map[[2]uint64]evtTerm{}, remoteAnswered: map[uint64]map[pb.SystemCtx]bool{}, votingHist: map[uint64][]votingAt{},
+		hbEvt: map[[3]uint64]evtTerm{}, respEvt: map[[3]uint64]evtTerm{}, remoteAnswered: map[uint64]map[pb.SystemCtx]bool{}, votingHist: map[uint64][]votingAt{},
 		ccQueue: map[uint64][]uint64{}, ccAt: map[uint64]ccOutcome{},
 		opByKey: map[uint64]int{}, opOrig: map[uint64][2]uint64{}, readOps: map[int]int{},
 		flags: map[string]bool{}, curTerm: map[uint64]uint64{},
@@ -737,10 +737,12 @@ func (m *monitors) onHandle(r *replica, msg pb.Message) {
 		m.leaderSawCtx(r, pb.SystemCtx{Low: msg.Hint, High: msg.HintHigh})
 	case pb.Heartbeat:
 		m.evt++
-		m.hbEvt[[2]uint64{r.id, msg.From}] = evtTerm{m.evt, msg.Term}
+		// per term: a long-delayed heartbeat of an older term (ignored by raft) must not hide the
+		// confirmations of the present one
+		m.hbEvt[[3]uint64{r.id, msg.From, msg.Term}] = evtTerm{m.evt, msg.Term}
 	case pb.HeartbeatResp:
 		m.evt++
-		m.respEvt[[2]uint64{r.id, msg.From}] = evtTerm{m.evt, msg.Term}
+		m.respEvt[[3]uint64{r.id, msg.From, msg.Term}] = evtTerm{m.evt, msg.Term}
 	}
 }
 
@@ -807,15 +809,15 @@ func (m *monitors) checkReadAnswer(r *replica, ctx pb.SystemCtx, index uint64, t
 			if f == r.id {
 				continue
 			}
-			hb, ok1 := m.hbEvt[[2]uint64{f, r.id}]
-			rs, ok2 := m.respEvt[[2]uint64{r.id, f}]
+			hb, ok1 := m.hbEvt[[3]uint64{f, r.id, term}]
+			rs, ok2 := m.respEvt[[3]uint64{r.id, f, term}]
 			if ok1 && ok2 && hb.term == term && rs.term == term && hb.evt >= reg && rs.evt >= reg {
 				n++
 			}
 		}
 		if n < v.Quorum && os.Getenv("VERIF_DEBUG") != "" {
 			for _, f := range voting {
-				fmt.Fprintf(os.Stderr, "  step %d leader %d term %d ctx %v reg %d: member %d hb %+v resp %+v view %+v\n", m.s.stepNo, r.id, term, ctx, reg, f, m.hbEvt[[2]uint64{f, r.id}], m.respEvt[[2]uint64{r.id, f}], v)
+				fmt.Fprintf(os.Stderr, "  step %d leader %d term %d ctx %v reg %d: member %d hb %+v resp %+v view %+v\n", m.s.stepNo, r.id, term, ctx, reg, f, m.hbEvt[[3]uint64{f, r.id, term}], m.respEvt[[3]uint64{r.id, f, term}], v)
 			}
 		}
 		if n < v.Quorum {
